@@ -92,7 +92,8 @@ def cases(quick, seed):
                 add('power', 'interp', 'S1 S3', npts=npts, x0=x0, x1=x1, dtype=dt)
     for n in (2, 3, 4, 7):
         for npts, k0, k1 in ((2, 0.5, 1.0), (2, 0.0, 10.0), (5, 0.0, 0.9 * n), (50, 0.1, 1.8 * n)):
-            add('power', 'expand', 'S1 S2 S3', n=n, L=100.0, npts=npts, k0_kf=k0, k1_kf=k1, poles=[0, 2, 4])
+            for pl in ([0, 2, 4], [0, 4], [2], [4, 2], [0]):
+                add('power', 'expand', 'S1 S2 S3' if pl == [0, 2, 4] else 'S1 S3', n=n, L=100.0, npts=npts, k0_kf=k0, k1_kf=k1, poles=pl)
     add('power', 'pn', 'S1 S3')
     for n in (2, 3, 4, 5, 8):
         for nthread in (1, 4):
